@@ -205,6 +205,59 @@ def check(tier: str) -> Result:
             if attr in arr:
                 res.add("C16.R3", eq.loc(), f"specs.{n}.__eq__", f"array comparison self.{attr} == other.{attr} is reduced before truth-value use", okr,
                         "reduced with all()/array_equal" if okr else "an element-wise array comparison is used directly as a truth value: raises for non-scalar values (sibling classes reduce it)")
+    # ------------------------------------------------------------------ nested Spec equality (truth table), asarray in validate, min <= max
+    from .common import raise_exits
+    sp_c = classes["Spec"]
+    sp_eq = sp_c.methods.get("__eq__")
+    if sp_eq is not None:
+        _, _, sp_props = spec_model(tree, sp_c)
+        sp_ia, _, _ = spec_model(tree, sp_c)
+        child_attr = None
+        v_eq = VFG(tree, Model(tree))
+        oth = mk("param", sp_eq.qual, sp_eq.params[1])
+        v_eq.apply_func(sp_eq, mk("self", sp_c.qual), sp_c, [oth], {}, None, None)
+        for t_ in list(deps(mk("tuple", tuple(v for _, _, _, _, v in v_eq.exits if v is not None)))):
+            if t_.kind == "attr" and t_.args[0] is oth:
+                child_attr = t_.args[1]
+        if child_attr is not None:
+            tt_ok, tt_why = eq_truth_table(tree, sp_c, sp_eq, names_override=[sp_props_inv(sp_props).get(child_attr, child_attr)])
+            res.add("C16.R5", sp_eq.loc(), "specs.Spec.__eq__", "nested specs are equal exactly when their children are, NotImplemented for a non-Spec (truth table)", tt_ok, tt_why)
+    av0 = classes["Array"].methods.get("validate")
+    if av0 is not None:
+        va = VFG(tree, Model(tree))
+        self_a0 = mk("self", classes["Array"].qual)
+        val0 = mk("param", av0.qual, av0.params[1])
+        ra = uncopy(va.apply_func(av0, self_a0, classes["Array"], [val0], {}, None, None))
+        conv = mk("call", mk("ext", "jax.numpy.asarray"), (val0,), ())
+        tested = [strip_cast(x) for e in va.events if e.kind == "py_branch" and e.target is not None for x in deps(e.target)
+                  if x.kind == "attr" and x.args[1] in ("shape", "dtype") and contains(x.args[0], val0)]
+        on_conv = bool(tested) and all(uncopy(x.args[0]) is conv or ext_name(uncopy(x.args[0])) in ("jax.numpy.asarray", "jax.numpy.array") for x in tested)
+        ret_conv = ra is conv or ext_name(ra) in ("jax.numpy.asarray", "jax.numpy.array") or (ra.kind == "phi" and all(ext_name(uncopy(x)) in ("jax.numpy.asarray", "jax.numpy.array") for x in ra.args[0] if x.kind != "ext"))
+        res.add("C16.R4", av0.loc(), "specs.Array.validate", "the value is converted with jnp.asarray before its shape and dtype are tested, and the converted array is returned", on_conv and ret_conv,
+                f"shape/dtype read from {sorted({txt(x.args[0], 3, 40) for x in tested})}; returns {txt(ra, 3, 60)}")
+    b_init = classes["BoundedArray"].methods.get("__init__")
+    if b_init is not None:
+        vbi = VFG(tree, Model(tree))
+        self_bi = mk("self", classes["BoundedArray"].qual)
+        psb = {p_: mk("param", b_init.qual, p_) for p_ in b_init.params[1:]}
+        vbi.apply_func(b_init, self_bi, classes["BoundedArray"], [psb[p_] for p_ in b_init.params[1:]], {}, None, None)
+        strict = None
+        seen_t = []
+        for fn_, node_, path_, _ in raise_exits(vbi):
+            for t_, pol_, pf_ in path_:
+                if not pol_ or pf_ is not b_init:
+                    continue
+                c_ = strip_cast(t_)
+                while ext_name(c_) in ("jax.numpy.any", "numpy.any", "builtins.any") and c_.args[1]:
+                    c_ = strip_cast(c_.args[1][0])
+                if c_.kind == "cmp" and c_.args[0] in ("<", "<=", ">", ">=") and contains(c_, psb.get("minimum")) and contains(c_, psb.get("maximum")):
+                    op_, a_, b_ = c_.args
+                    lo_first = contains(a_, psb["minimum"])
+                    # raise iff min > max  (min > max | max < min); `>=` / `<=` also rejects min == max
+                    seen_t.append(txt(c_, 3, 60))
+                    strict = (op_ == ">" and lo_first) or (op_ == "<" and not lo_first)
+        res.add("C16.R7", b_init.loc(), "specs.BoundedArray.__init__", "the constructor rejects exactly minimum > maximum (equal bounds are a valid spec)", strict,
+                f"raising test {seen_t}" if seen_t else "no raising comparison of minimum with maximum found (not decided)")
     # ------------------------------------------------------------------ R7 discrete specs: bounds derived from num_values
     from ..normal import disjuncts, ge_form, linear
     from .common import raise_exits as _rx
@@ -595,11 +648,15 @@ def _pure_relay(e: ast.expr):
     return None
 
 
+def sp_props_inv(props):
+    return {priv: pub for pub, priv in props.items() if priv is not None}
+
+
 class _Undecidable(Exception):
     pass
 
 
-def eq_truth_table(tree, ci: ClassInfo, eq: FuncInfo):
+def eq_truth_table(tree, ci: ClassInfo, eq: FuncInfo, names_override=None):
     """Evaluates the boolean skeleton of __eq__ over the comparison atoms `self.p == other.p` (one boolean variable per
     constructor parameter, whatever reduction wraps it) and the class guard isinstance(other, C): for operands of the
     same kind the result must be the conjunction of ALL atoms (2^k assignments, k <= 8); for another kind it must be
@@ -666,10 +723,24 @@ def eq_truth_table(tree, ci: ClassInfo, eq: FuncInfo):
             if a is not None:
                 atoms.add(a)
                 return env[a]
+        if n is not None and n.endswith("pytrees.is_equal_pytree") and len(t.args[1]) == 2:
+            a = pair(*t.args[1])
+            if a is not None:
+                atoms.add(a)
+                return env[a]
         if n in ("jax.numpy.all", "numpy.all", "builtins.all", "builtins.bool", "jax.numpy.asarray", "numpy.asarray") and t.args[1]:
             return ev(t.args[1][0], env)
         if k == "call" and t.args[0].kind == "attr" and t.args[0].args[1] in ("all", "item") and not t.args[1]:
             return ev(t.args[0].args[0], env)
+        # a helper evaluated in line (e.g. the pytree equality of the children): when the term reads exactly one
+        # attribute of self and the same attribute of other, it is the equality atom of that attribute (what the
+        # helper computes is decided by C19.R2)
+        reads_s = {x.args[1] for x in deps(t) if x.kind == "attr" and x.args[0] is self_t}
+        reads_o = {x.args[1] for x in deps(t) if x.kind == "attr" and x.args[0] is other}
+        if len(reads_s) == 1 and reads_s == reads_o and ("array_equal" in txt(t, 8, 4000) or "is_equal" in txt(t, 8, 4000)):
+            a = pub_of.get(next(iter(reads_s)), next(iter(reads_s)))
+            atoms.add(a)
+            return env[a]
         raise _Undecidable(f"term {txt(t, 3, 60)}")
 
     rets = [(path, val) for kind, fn, node, path, val in v.exits if kind == "return" and fn is eq]
@@ -678,7 +749,7 @@ def eq_truth_table(tree, ci: ClassInfo, eq: FuncInfo):
     _, _, _props = spec_model(tree, ci)
     init = tree.find_method(ci, "__init__")
     params = init_params(init)
-    names = list(params)
+    names = list(names_override) if names_override is not None else list(params)
     try:
         # discover atoms first (all-true assignment), then enumerate
         def result(env):
